@@ -32,7 +32,18 @@ EXTENDS Geometry, Topology, TLC
 Range(s) == {s[i] : i \in DOMAIN s}
 
 \* A failed conjunct is named on stdout so that a rejected trace explains itself.
-Chk(name, cond) == IF cond THEN TRUE ELSE PrintT(<<"CONTRACT-FAIL", name>>) /\ FALSE
+\* C19's own check validates the histories of ALL families for "no panic, no timeout, work within
+\* budget" only: in that mode (TLC register 9, set by Trace_API from the environment) a failed
+\* conjunct that belongs to another property does not stop the validation of the history.
+C19Names == {"C19.panic", "C19.timeout", "C19.panic in locate", "C19.walk steps within budget",
+             "C19.panic in hull query", "C19.panic in queries", "C19.repair exceeded its flip budget",
+             "C19.more than one perturbation retry", "C19.panic in a validator",
+             "C19.non-finite coordinate accepted", "C19.non-finite coordinate entered a triangulation",
+             "C19.refused non-finite call changed the triangulation"}
+Chk(name, cond) ==
+  IF cond THEN TRUE
+  ELSE IF TLCGet(9) /\ name \notin C19Names THEN TRUE
+  ELSE PrintT(<<"CONTRACT-FAIL", name>>) /\ FALSE
 
 ---------------------------------------------------------------------------
 \* Projections of a state record
@@ -245,7 +256,7 @@ ViolatorClass(S) ==
 \* or, if no open finding matches, a VIOLATION by ./check) but does not stop the validation of
 \* the rest of the history.  Everything else fails the conjunct.
 ChkNSI(name, S) ==
-  IF NoStrictlyInside(S) THEN TRUE
+  IF TLCGet(9) \/ NoStrictlyInside(S) THEN TRUE
   ELSE LET cls == ViolatorClass(S)
            cvx == IF EmbConvex(S) THEN "yes" ELSE "no"
        IN  IF S.D >= 4 /\ cls \in {"adjacent-only", "mixed"}
@@ -354,6 +365,7 @@ InsertInserted(pre, a, r, post) ==
   /\ InBox(post)
   /\ Chk("C02.old vertices kept", OthersKept(post, pre, {a.u}))
   /\ Chk("C02.key resolves", r.key_ok)
+  /\ Chk("C19.more than one perturbation retry", r.attempts <= 2)
   /\ Chk("C02.policies unchanged", post.cfg = pre.cfg)
   /\ StackOrBootstrap(post, post.cfg.g)
   /\ (post.cfg.cp = "EveryN1" /\ ~Bootstrap(post) => ChkNSI("C02.check policy => Delaunay", post))
@@ -448,6 +460,14 @@ Flip(pre, a, r, post) ==
 
 \* ---- C08 : flip-based repair ------------------------------------------------
 \* default_max_flips transcribed from src/core/algorithms/flips.rs
+\* default_max_flips transcribed from src/core/algorithms/flips.rs (debug / release profiles)
+MaxOf(x, y) == IF x > y THEN x ELSE y
+FlipBudget(cells, D, profile) ==
+  IF profile = "debug"
+  THEN IF D >= 4 THEN MaxOf(4096, cells * (D + 1) * 4)
+       ELSE MaxOf(512, cells * (D + 1) * (IF D = 3 THEN 8 ELSE 4))
+  ELSE MaxOf(512, cells * (D + 1) * 4)
+
 RepairOK(pre, a, r, post) ==
   \* the heuristic rebuild re-inserts every vertex and may displace one by the documented
   \* perturbation; otherwise the records are identical
@@ -458,6 +478,8 @@ RepairOK(pre, a, r, post) ==
               /\ \A x \in VRecs(post) : ~x.pert \/ x.dok
          ELSE SameVertexRecords(pre, post))
   /\ Chk("C08.policies unchanged", post.cfg = pre.cfg)
+  /\ Chk("C19.repair exceeded its flip budget",
+         r.heuristic \/ r.flips <= FlipBudget(MaxOf(Len(pre.cells), Len(post.cells)), pre.D, a.profile))
   /\ ValidStack(post, post.cfg.g)
   /\ ChkNSI("C08.empty circumspheres", post)
   /\ Chk("C08.general position => the Delaunay triangulation",
